@@ -95,7 +95,7 @@ def _state(kind):
     return st
 
 
-def protocol(I, kind="bare", nb=2, ncb=1, style="lambda", timer=False, order=0, twin=False):
+def protocol(I, kind="bare", nb=2, ncb=1, style="lambda", timer=False, order=0, twin=False, neg=None):
     import torch
     from qucumber.callbacks import LambdaCallback, CallbackBase
 
@@ -155,6 +155,8 @@ def protocol(I, kind="bare", nb=2, ncb=1, style="lambda", timer=False, order=0, 
     kw = dict(epochs=epochs, pos_batch_size=2, k=1, starting_epoch=start, callbacks=cbs, optimizer=Opt, time=timer)
     if kind in ("complex", "mixed"):
         kw["input_bases"] = np.array(_BASES[: len(_DATA[nb])])
+    if neg is not None:
+        kw["neg_batch_size"] = neg  # the number of batch pairs per epoch is ceil(N / pos_batch_size), whatever the negative batch size
     with contextlib.redirect_stdout(io.StringIO()):
         st.fit(data, **kw)
     s0, e0, k0 = int(start), int(epochs), int(stop_ev)
@@ -230,6 +232,9 @@ def specs(tier):
         add("%s-nb2" % kind, "protocol", nev(2, 1), kind=kind, nb=2, ncb=1)
         S.append(dict(name="%s-prestopped" % kind, module="checks.c12", function="prestopped", kwargs=dict(kind=kind),
                       inputs=dict(start=("int", 0, 2), epochs=("int", 0, 2))))
+    for kind in ("positive", "complex", "mixed"):
+        S.append(dict(name="%s-nb2-larger-negative-batches" % kind, module="checks.c12", function="protocol", kwargs=dict(kind=kind, nb=2, ncb=1, neg=5),
+                      inputs=dict(start=("int", 0, 2), epochs=("int", 0, 2), stop_ev=("int", -1, 2 + 3 * 6))))
     S.append(dict(name="bare-prestopped", module="checks.c12", function="prestopped", kwargs=dict(kind="bare"),
                   inputs=dict(start=("int", 0, 2), epochs=("int", 0, 2))))
     S.append(dict(name="twin-wrong-batch-count", module="checks.c12", function="protocol", kwargs=dict(kind="bare", nb=1, ncb=1, twin=True), expect_fail=True,
